@@ -42,7 +42,7 @@ var ctVariants = map[string][]string{
 	"wild":     {"*/*", "application/*", "*/*; charset=utf-8", "application/*; charset=utf-8", "*/json"},
 }
 
-var reasons = map[int]string{200: "OK", 201: "Created", 202: "Accepted", 203: "Non-Authoritative Information", 204: "No Content",
+var reasons = map[int]string{100: "Continue", 101: "Switching Protocols", 103: "Early Hints", 199: "Miscellaneous", 226: "IM Used", 299: "Odd", 200: "OK", 201: "Created", 202: "Accepted", 203: "Non-Authoritative Information", 204: "No Content",
 	301: "Moved Permanently", 302: "Found", 303: "See Other", 307: "Temporary Redirect", 308: "Permanent Redirect",
 	400: "Bad Request", 404: "Not Found", 410: "Gone", 500: "Internal Server Error", 503: "Service Unavailable"}
 
@@ -143,6 +143,19 @@ func (w *World) Render(id string, r Resp, rng *rand.Rand) []byte {
 		"Cache-Control: max-age=0", "Set-Cookie: track=1", "Content-Location: https://elsewhere.example/x", "Link: <https://x.example/>; rel=\"alternate\"; type=\"text/html\""}
 	for k := rng.Intn(4); k > 0; k-- {
 		headers = append(headers, pick(rng, extra))
+	}
+	/* a header line longer than any read buffer, whose tail reads like the header the response does not have:
+	   it is ONE line, so there still is no Content-Type / Location */
+	if rng.Intn(6) == 0 {
+		tail := ""
+		if len(r.Ct) == 0 && r.Loc == "" {
+			tail = pick(rng, []string{"Content-Type: application/activity+json", "Location: " + w.URL(id), "content-type: application/json"})
+		}
+		for _, size := range []int{4096, 8192, 65536}[:1+rng.Intn(3)] {
+			line := "X-Pad: "
+			line += strings.Repeat("a", size-len(line)) + tail
+			headers = append(headers, line)
+		}
 	}
 	rng.Shuffle(len(headers), func(i, j int) { headers[i], headers[j] = headers[j], headers[i] })
 	for _, h := range headers {
